@@ -42,6 +42,16 @@ MUL_MODE = {"mode": "exact"}  # 'exact' | 'uf'
 _PROD = z3.Function("prod", z3.RealSort(), z3.RealSort(), z3.RealSort())
 _DIV = z3.Function("quot", z3.RealSort(), z3.RealSort(), z3.RealSort())
 _INV = z3.Function("recip", z3.RealSort(), z3.RealSort())
+# narrowing f64 -> f32 as an uninterpreted function (only applied when an engine runs with `narrowing` on: a value that went
+# through f32 on an f64 configuration is then *not* provably the value it came from)
+_RND32 = z3.Function("round_to_f32", z3.RealSort(), z3.RealSort())
+
+
+def narrow32(v):
+    v = Num.of(v)
+    if v.concrete:
+        return Num(Fraction(float(np.float32(float(v.v)))), v.nan)
+    return Num(_RND32(v.z()), v.nan)
 UF = {}
 
 
@@ -193,6 +203,13 @@ class Num:
             if o.v == 1:
                 return Num(self.v)
             return Num(self.z() * o.z())
+        # a 0/1 (or other constant-branch) selector times a value is a selection, not a product
+        for sel, oth in ((self, o), (o, self)):
+            e = sel.z()
+            if z3.is_app_of(e, z3.Z3_OP_ITE) and z3.is_rational_value(e.arg(1)) and z3.is_rational_value(e.arg(2)):
+                a1 = Num(Fraction(e.arg(1).numerator_as_long(), e.arg(1).denominator_as_long()))
+                a2 = Num(Fraction(e.arg(2).numerator_as_long(), e.arg(2).denominator_as_long()))
+                return Num(z3.If(e.arg(0), (a1._mul(Num(oth.v))).z(), (a2._mul(Num(oth.v))).z()))
         if MUL_MODE["mode"] == "uf" and not (int_valued(self.z()) or int_valued(o.z())):
             ca, a = split_coef(self.z())
             cb, b = split_coef(o.z())
@@ -812,6 +829,11 @@ class Engine:
             return INT_RANGES[m.group(1)][0 if m.group(2) == "MIN" else 1]
         if re.search(r"consts::PI$", t):
             return PI
+        m = re.search(r"(f32|f64)(?:::<impl f(?:32|64)>)?::(EPSILON|MAX|MIN|MIN_POSITIVE)$", t)
+        if m:
+            fi = np.finfo(np.float32 if m.group(1) == "f32" else np.float64)
+            val = {"EPSILON": fi.eps, "MAX": fi.max, "MIN": fi.min, "MIN_POSITIVE": fi.tiny}[m.group(2)]
+            return Num(Fraction(float(val)))
         if t.startswith('"') or t.startswith('b"'):
             return StrLit(t)
         if t.startswith("PhantomData") or t.startswith("ZeroSized: PhantomData"):
